@@ -503,6 +503,26 @@ pub fn directed() -> Vec<Doc> {
             }
         }
     }
+    // cyclic link in a skeleton's Havok type table: a struct type whose only member is an array
+    // of that same struct, followed by "member present" bytes. Kept as two damages of the valid
+    // version-1 object (cut behind the file-info tag, then the self-referential tail).
+    {
+        let mut tail: Vec<u8> = vec![2 << 1, 1 << 1, b'X', 0, 0, 1 << 1, 1 << 1, b'm', (0x10 | 9) << 1, 1 << 1, b'X'];
+        tail.extend_from_slice(&[4 << 1, 1 << 1, 0x01, 1 << 1]);
+        tail.extend(std::iter::repeat(0x01u8).take(100_000));
+        out.push(Doc {
+            prop: "C18".into(),
+            seed: 0xD1EC7ED0 + idx,
+            cfg: Cfg::Hostile,
+            benign: Benign::quiet(),
+            io_faults: vec![],
+            body: Body::C18(C18Doc::Asset {
+                format: "sklb".to_string(),
+                seed: 2,
+                damage: vec![Damage::Truncate { at: 42 }, Damage::Append { hex: crate::formats::hex(&tail) }],
+            }),
+        });
+    }
     out
 }
 
